@@ -1006,6 +1006,10 @@ func checkTailConsistent(p *Program, r *Report) {
 				if strings.Contains(c, "call:bytes.") && strings.Contains(c, "leafPrefix") {
 					uses = true
 				}
+				// string(leafPrefix) == key[i>>3:] : the same comparison without the bytes package
+				if strings.Contains(c, "leafPrefix") && (strings.Contains(c, " == ") || strings.Contains(c, " != ")) && strings.Contains(c, "string(") {
+					uses = true
+				}
 			}
 			for _, res := range fp.results {
 				if s := res.String(); strings.Contains(s, "call:bytes.") && strings.Contains(s, "leafPrefix") {
